@@ -7,7 +7,7 @@ from hypothesis import strategies as st
 
 from vp.harness import pcode_gen as G
 
-CFG_OUT = G.GenCfg(kinds={"set": 5, "slow": 3, "ova": 1, "ovb": 1, "wait": 3, "pause": 2, "hold": 1, "block": 2, "mark": 2,
+CFG_OUT = G.GenCfg(kinds={"set": 5, "slow": 3, "ova": 1, "ovb": 1, "wait": 3, "pause": 2, "hold": 1, "unpause": 1, "unhold": 1, "block": 2, "mark": 2,
                           "watch": 1, "flow": 1},
                    max_depth=2, max_top=7, max_children=3, thresholds=False, base_first="s", wait_max=1.0,
                    pause_durs=(0.1, 0.2, 0.3, 0.5, 0.5, 1.0, 2.0, None))
